@@ -1,13 +1,20 @@
-"""C14 on the real code: one Hamiltonian series passed in different formats / carriers / block designations must give
-the same H_tilde, U, U† (compared as dense arrays with a tight tolerance)."""
+"""C14 (and the key/order bookkeeping of C13) on the real code: one two-parameter Hamiltonian series — with *mixed* orders — passed in
+different formats / carriers / designations must give the same H_tilde, U, U† as the plain dict of dense arrays with order-tuple keys.
+
+Formats (round-robin): dict of sparse arrays; dict of SymPy matrices; SymPy matrix polynomial in the symbols (Taylor-expanded by the code),
+with the symbols given in either order; SymPy matrix with *analytic* (sin/exp) dependence whose Taylor coefficients are the series;
+monomial keys with symbol names that stress the string sort (x10 vs x2); eigenvector matrices; the rotated operator with rotated
+eigenvectors; nested block lists; a BlockSeries; interleaved subspace_indices (dense and SymPy).  Also `operator_to_BlockSeries` must
+return exactly the blocks L_i^H A R_j.  Values are compared as dense arrays (SymPy results: the coefficient of the monomial)."""
 import os, sys; sys.path.insert(0, os.path.dirname(os.path.abspath(__file__)))
 from common import case_rnd, skip
-import sys, json, random, itertools, warnings
+import json, itertools, warnings
+from math import factorial
 import numpy as np, sympy
 from scipy import sparse
 warnings.simplefilter("ignore")
-from pymablock import block_diagonalize
-from pymablock.series import zero, one
+from pymablock import block_diagonalize, operator_to_BlockSeries
+from pymablock.series import zero, one, BlockSeries
 
 def dense(v, shape):
     if v is zero: return np.zeros(shape, dtype=complex)
@@ -16,12 +23,16 @@ def dense(v, shape):
         # in the `symbols` path every order carries its monomial in the symbols: compare the coefficient
         return np.array(v.subs({s: 1 for s in v.free_symbols}).tolist(), dtype=complex)
     if hasattr(v, "toarray"): v = v.toarray()
-    return np.asarray(v, dtype=complex)
+    return np.asarray(v, dtype=complex).reshape(shape)
 
-FORMATS = ["list-dense", "dict-sparse", "dict-sympy", "sympy-symbols", "monomial-keys", "eigenvectors", "rotated-eigenbasis"]
+FORMATS = ["dict-sparse", "dict-sympy", "sympy-symbols", "sympy-symbols-swapped", "sympy-analytic", "monomial-keys", "eigenvectors",
+           "rotated-eigenbasis", "nested-blocks", "blockseries", "interleaved-indices", "interleaved-indices-sympy", "projection"]
+ORDERS = [(0, 0), (1, 0), (0, 1), (1, 1), (2, 0), (0, 2), (2, 1), (1, 2)]
+
+def S(m): return sympy.Matrix([[sympy.Integer(int(round(z.real))) + sympy.I * int(round(z.imag)) for z in row] for row in m])
 
 def main(seed, ncases, driver, out):
-    rnd = random.Random(seed); failures = []; dist = {}; samples = []; evals = 0; distinct = 0; worst = 0.0
+    failures = []; dist = {}; samples = []; evals = 0; distinct = 0; worst = 0.0
     for c in range(ncases):
         if skip(c): continue
         rnd = case_rnd(seed, c)
@@ -32,39 +43,79 @@ def main(seed, ncases, driver, out):
         E = np.array([10 * blocks[a] + int(rng.integers(0, 3)) + 1 for a in range(d)], dtype=float)
         def herm():
             m = rng.integers(-3, 4, size=(d, d)).astype(complex) + 1j * rng.integers(-2, 3, size=(d, d)); return m + m.conj().T
-        H0 = np.diag(E).astype(complex); H1 = herm(); H2 = herm()
+        terms = {(0, 0): np.diag(E).astype(complex), (1, 0): herm(), (0, 1): herm()}
+        for n in [(1, 1), (2, 0), (0, 2), (2, 1)]:
+            if rnd.random() < 0.6: terms[n] = herm()
+        if (1, 1) not in terms and (2, 1) not in terms: terms[(1, 1)] = herm()                  # a mixed order is always present
         fd = tuple(b for b in range(N) if rnd.random() < 0.4)
-        desc = {"format": fmt, "sizes": sizes, "fd": list(fd), "E": E.tolist()}
+        desc = {"case": c, "format": fmt, "sizes": sizes, "fd": list(fd), "E": E.tolist(), "orders": sorted(map(list, terms))}
         dist[fmt] = dist.get(fmt, 0) + 1
         if len(samples) < 2: samples.append(desc)
-        ref = block_diagonalize({(0, 0): H0, (1, 0): H1, (0, 1): H2}, subspace_indices=blocks, fully_diagonalize=fd)
-        rot = None
+        off = np.cumsum([0] + sizes); idx_of = [list(range(off[b], off[b + 1])) for b in range(N)]
+        order_map = lambda n: n; kw = dict(subspace_indices=blocks, fully_diagonalize=fd)
         try:
-            if fmt == "list-dense": got = block_diagonalize([H0, H1, H2], subspace_indices=blocks, fully_diagonalize=fd)
-            elif fmt == "dict-sparse":
-                got = block_diagonalize({(0, 0): sparse.csr_array(H0), (1, 0): sparse.csr_array(H1), (0, 1): sparse.csr_array(H2)}, subspace_indices=blocks, fully_diagonalize=fd)
-            elif fmt == "dict-sympy":
-                S = lambda m: sympy.Matrix([[sympy.Integer(int(z.real)) + sympy.I * int(z.imag) for z in row] for row in m])
-                got = block_diagonalize({(0, 0): S(H0), (1, 0): S(H1), (0, 1): S(H2)}, subspace_indices=blocks, fully_diagonalize=fd)
-            elif fmt in ("sympy-symbols", "monomial-keys"):
-                S = lambda m: sympy.Matrix([[sympy.Integer(int(z.real)) + sympy.I * int(z.imag) for z in row] for row in m])
+            ref = block_diagonalize(dict(terms), subspace_indices=blocks, fully_diagonalize=fd)
+            if fmt == "analytic-dummy": pass
+            if fmt == "sympy-analytic":
+                # H(a, b) = H0 + sin(a) A + (exp(b) - 1) B + sin(a) exp(b) C : Taylor coefficients are known in closed form
+                a, b = sympy.symbols("a b", real=True); A, B, C = herm(), herm(), herm()
+                sin_c = lambda i: 0 if i % 2 == 0 else (-1) ** ((i - 1) // 2) / factorial(i)
+                tt = {(0, 0): terms[(0, 0)]}
+                for (i, j) in ORDERS[1:]:
+                    t = np.zeros((d, d), dtype=complex)
+                    if j == 0: t = t + sin_c(i) * A
+                    if i == 0 and j > 0: t = t + B / factorial(j)
+                    t = t + sin_c(i) / factorial(j) * C
+                    if np.abs(t).max() > 0: tt[(i, j)] = t
+                ref = block_diagonalize(tt, subspace_indices=blocks, fully_diagonalize=fd)
+                got = block_diagonalize(S(terms[(0, 0)]) + sympy.sin(a) * S(A) + (sympy.exp(b) - 1) * S(B) + sympy.sin(a) * sympy.exp(b) * S(C), symbols=[a, b], **kw)
+            elif fmt == "dict-sparse": got = block_diagonalize({n: sparse.csr_array(m) for n, m in terms.items()}, **kw)
+            elif fmt == "dict-sympy": got = block_diagonalize({n: S(m) for n, m in terms.items()}, **kw)
+            elif fmt in ("sympy-symbols", "sympy-symbols-swapped"):
                 a, b = sympy.symbols("a b", real=True)
-                if fmt == "sympy-symbols": got = block_diagonalize(S(H0) + a * S(H1) + b * S(H2), symbols=[a, b], subspace_indices=blocks, fully_diagonalize=fd)
-                else: got = block_diagonalize({sympy.Integer(1): S(H0), a: S(H1), b: S(H2)}, symbols=[a, b], subspace_indices=blocks, fully_diagonalize=fd)
+                expr = sum((a ** i * b ** j * S(m) for (i, j), m in terms.items()), sympy.zeros(d, d))
+                if fmt == "sympy-symbols": got = block_diagonalize(expr, symbols=[a, b], **kw)
+                else:
+                    got = block_diagonalize(expr, symbols=[b, a], **kw); order_map = lambda n: (n[1], n[0])
+                    if list(got[0].dimension_names) != [b, a]: failures.append(dict(desc, kind="dimension-names-differ-from-symbols", got=str(got[0].dimension_names)))
+            elif fmt == "monomial-keys":
+                x10, x2 = sympy.symbols("x10 x2", real=True)          # sorted as strings: "x10" < "x2"
+                got = block_diagonalize({(x10 ** i * x2 ** j if (i, j) != (0, 0) else sympy.Integer(1)): m for (i, j), m in terms.items()}, **kw)
+                # documented rule: the symbols are ordered by name as strings, so x10 is the first parameter and x2 the second
             elif fmt == "eigenvectors":
-                vecs = [np.eye(d)[:, [x for x in range(d) if blocks[x] == blk]] for blk in range(N)]
-                got = block_diagonalize([H0, H1, H2], subspace_eigenvectors=vecs, fully_diagonalize=fd)
-            else:   # the same operator in a rotated basis, designated by the rotated eigenvectors
+                got = block_diagonalize(dict(terms), subspace_eigenvectors=[np.eye(d)[:, ix] for ix in idx_of], fully_diagonalize=fd)
+            elif fmt == "rotated-eigenbasis":
                 q, _ = np.linalg.qr(rng.normal(size=(d, d)) + 1j * rng.normal(size=(d, d)))
-                R = lambda m: q @ m @ q.conj().T
-                vecs = [q[:, [x for x in range(d) if blocks[x] == blk]] for blk in range(N)]
-                got = block_diagonalize([R(H0), R(H1), R(H2)], subspace_eigenvectors=vecs, fully_diagonalize=fd)
-            bad = None
-            for k, (A, Bs) in enumerate(zip(ref, got)):
-                for n in itertools.product(range(3), range(2)):
+                got = block_diagonalize({n: q @ m @ q.conj().T for n, m in terms.items()}, subspace_eigenvectors=[q[:, ix] for ix in idx_of], fully_diagonalize=fd)
+            elif fmt == "nested-blocks":
+                got = block_diagonalize({n: [[m[np.ix_(idx_of[i], idx_of[j])] for j in range(N)] for i in range(N)] for n, m in terms.items()}, fully_diagonalize=fd)
+            elif fmt == "blockseries":
+                got = block_diagonalize(BlockSeries(data=dict(terms), shape=(), n_infinite=2), **kw)
+            elif fmt in ("interleaved-indices", "interleaved-indices-sympy"):
+                labels = list(blocks); rnd.shuffle(labels); seen = {b: 0 for b in range(N)}; perm = []
+                for b in labels: perm.append(idx_of[b][seen[b]]); seen[b] += 1
+                conv = S if fmt.endswith("sympy") else (lambda m: m)
+                got = block_diagonalize({n: conv(m[np.ix_(perm, perm)]) for n, m in terms.items()}, subspace_indices=labels, fully_diagonalize=fd)
+            else:   # operator_to_BlockSeries returns exactly the blocks L_i^H A R_j
+                q, _ = np.linalg.qr(rng.normal(size=(d, d)) + 1j * rng.normal(size=(d, d)))
+                vec = [q[:, ix] for ix in idx_of]
+                op = operator_to_BlockSeries(dict(terms), subspace_eigenvectors=vec, hermitian=rnd.random() < 0.5)
+                bad = None
+                for n in terms:
                     for i in range(N):
                         for j in range(N):
-                            shape = (sizes[i], sizes[j]); x = dense(A[i, j, n[0], n[1]], shape); y = dense(Bs[i, j, n[0], n[1]], shape); evals += 1
+                            x = dense(op[(i, j) + n], (sizes[i], sizes[j])); y = vec[i].conj().T @ terms[n] @ vec[j]; evals += 1
+                            err = float(np.abs(x - y).max()); worst = max(worst, err)
+                            if err > 1e-10 * (1 + np.abs(y).max()): bad = bad or {"block": [i, j], "order": list(n), "err": err}
+                distinct += 1
+                if bad: failures.append(dict(desc, kind="operator_to_BlockSeries-is-not-L^H-A-R", **bad))
+                continue
+            bad = None
+            for k, (A_, Bs) in enumerate(zip(ref, got)):
+                for n in ORDERS:
+                    for i in range(N):
+                        for j in range(N):
+                            shape = (sizes[i], sizes[j]); x = dense(A_[(i, j) + n], shape); y = dense(Bs[(i, j) + order_map(n)], shape); evals += 1
                             err = float(np.abs(x - y).max()) if x.size else 0.0; worst = max(worst, err)
                             if err > 1e-9 * (1 + np.abs(x).max()): bad = bad or {"series": ["H_tilde", "U", "U†"][k], "block": [i, j], "order": list(n), "err": err}
             distinct += 1
@@ -72,7 +123,7 @@ def main(seed, ncases, driver, out):
         except Exception as e:
             failures.append(dict(desc, kind="implementation-raises", error=type(e).__name__ + ": " + str(e)[:150]))
     json.dump({"evaluations": evals, "cases": ncases, "distinct_nontrivial": distinct, "failures": failures, "distribution": dist,
-               "samples": samples, "worst_abs_error": worst}, open(out, "w"))
+               "samples": samples, "worst_abs_error": worst}, open(out, "w"), default=str)
 
 if __name__ == "__main__":
     main(int(sys.argv[1]), int(sys.argv[2]), sys.argv[3], sys.argv[4])
